@@ -574,6 +574,7 @@ func (t *fnTrans) moduleCall(in ssa.Instruction, callee *ssa.Function, cc *ssa.C
 	s := t.g.summaries[callee]
 	key := t.g.fnKey(callee)
 	t.uncontracted[key] = true
+	preSt := t.cur
 	if s == nil {
 		t.havocVars(true, nil)
 	} else {
@@ -583,8 +584,9 @@ func (t *fnTrans) moduleCall(in ssa.Instruction, callee *ssa.Function, cc *ssa.C
 		t.lockCallCheck(in, callee, s)
 		t.havocVars(s.all, s.vars)
 	}
-	t.ownCallHook(in, callee, cc, res)
+	t.ownFrame(preSt, cc.Args)
 	rs := t.freshResults(res, nameOf(res, "r"))
+	t.ownCallHook(in, callee, cc, res)
 	t.resultFacts(callee, cc, res, rs)
 }
 
@@ -617,9 +619,11 @@ func (t *fnTrans) invokeCall(in ssa.Instruction, cc *ssa.CallCommon, res ssa.Val
 		}
 	}
 	t.uncontracted["invoke "+t.g.typeKey(cc.Value.Type())+"."+cc.Method.Name()] = true
+	preSt := t.cur
 	t.havocVars(all, vars)
-	t.ownInvokeHook(in, cc, res)
+	t.ownFrame(preSt, cc.Args)
 	t.freshResults(res, nameOf(res, "r"))
+	t.ownInvokeHook(in, cc, res)
 }
 
 func (t *fnTrans) externalCall(in ssa.Instruction, name string, cc *ssa.CallCommon, res ssa.Value) {
@@ -644,7 +648,9 @@ func (t *fnTrans) externalCall(in ssa.Instruction, name string, cc *ssa.CallComm
 
 func (t *fnTrans) unknownCall(in ssa.Instruction, cc *ssa.CallCommon, res ssa.Value) {
 	t.uncontracted["funcvalue "+t.describe(cc.Value)] = true
+	preSt := t.cur
 	t.havocVars(true, nil)
+	t.ownFrame(preSt, cc.Args)
 	t.freshResults(res, nameOf(res, "r"))
 }
 
